@@ -257,19 +257,20 @@ def gen_glob_cases(rng, n_valid, n_malformed):
 class Switches:
     """which repairs are in the tree under test (derived from the behaviour of the code by probe_switches):
     f17 = locality test in IgnoreRules::check (P17), f35 = global ignore patterns are final (P35),
-    f36 = Pattern::new drops the last character, not the last byte (P36)"""
-    def __init__(self, f17, f35, f36):
-        self.f17, self.f35, self.f36 = bool(f17), bool(f35), bool(f36)
+    f36 = Pattern::new drops the last character, not the last byte (P36),
+    f37 = the walkers ask about a directory with IgnoreRules::check_dir: a `dir/` line ignores the directory (P37)"""
+    def __init__(self, f17, f35, f36, f37=False):
+        self.f17, self.f35, self.f36, self.f37 = bool(f17), bool(f35), bool(f36), bool(f37)
 
     @property
     def s(self):
-        return "%d%d%d" % (self.f17, self.f35, self.f36)
+        return "%d%d%d%d" % (self.f17, self.f35, self.f36, self.f37)
 
     def with_f17(self, v=True):
-        return Switches(v, self.f35, self.f36)
+        return Switches(v, self.f35, self.f36, self.f37)
 
     def as_dict(self):
-        return {"fixed_P17": self.f17, "fixed_P35": self.f35, "fixed_P36": self.f36}
+        return {"fixed_P17": self.f17, "fixed_P35": self.f35, "fixed_P36": self.f36, "fixed_P37": self.f37}
 
 
 def _u_line(rng):
@@ -378,9 +379,48 @@ def probe_fixed(globdrv_bin):
     raise RuntimeError("probe_fixed: globdrv answered %r (rc=%s)" % (ans, rc))
 
 
-def probe_switches(globdrv_bin):
+_P37_PROBES = [
+    # root lines `build/` + `!*.keep`: is build entered and build/x.keep re-included?
+    ([["f", ".xvcignore", "build/\n!*.keep\n"], ["d", "build", ""], ["f", "build/x.keep", ""], ["f", "build/y.bin", ""], ["f", "top.keep", ""]],
+     "build", "build/x.keep", "top.keep"),
+    # the line in a nested file, the directory two levels below it, the whitelist line by name in the root file
+    ([["f", ".xvcignore", "!q.dat\n"], ["d", "a", ""], ["f", "a/.xvcignore", "out/\n"], ["d", "a/sub", ""], ["d", "a/sub/out", ""],
+      ["f", "a/sub/out/q.dat", ""], ["f", "a/sub/r.dat", ""]],
+     "a/sub/out", "a/sub/out/q.dat", "a/sub/r.dat"),
+]
+
+
+def probe_p37(walkdrv_bin, base):
+    """is the repair of P37 in the real walkers?  Decided by behaviour, on walk_serial AND walk_parallel (4 runs each):
+    with the repair neither the directory named by the `dir/` line nor the whitelisted file below it is reported,
+    without it both are; a third path must be reported in either case.  Returns (f37, problem): when the answers
+    are mixed (one walker repaired, the other not; the directory reported but not the file, ...) the probe is
+    inconclusive -- `problem` says how, the caller records a correspondence failure, and the run goes on with the
+    behaviour of walk_serial so that the oracles can still produce a failing input.  A probe that cannot be run at all
+    raises."""
+    res = real_walks(walkdrv_bin, base, [t for t, _, _, _ in _P37_PROBES], "", 4, shards=1)
+    verdicts, serial_verdicts = [], []
+    for (t, d, f, other), r in zip(_P37_PROBES, res):
+        if "error" in r or r.get("panic") or "serial" not in r:
+            raise RuntimeError("probe_switches: P37 probe failed: %r" % (r,))
+        for s in [r["serial"]] + [p["set"] for p in r["par"]]:
+            if other not in s:
+                raise RuntimeError("probe_switches: P37 probe inconclusive: %s missing from %r" % (other, s))
+            verdicts.append((d in s, f in s))
+        serial_verdicts.append((d in r["serial"], f in r["serial"]))
+    if all(v == (False, False) for v in verdicts):
+        return True, None
+    if all(v == (True, True) for v in verdicts):
+        return False, None
+    return (all(v == (False, False) for v in serial_verdicts),
+            "probe_switches: P37 probe inconclusive -- a half-applied or different repair: (directory reported, whitelisted file below it reported) per walk "
+            "[serial, parallel results of tree 1, then of tree 2]: %r" % (verdicts,))
+
+
+def probe_switches(globdrv_bin, walkdrv_bin=None, base=None):
     """which repairs are in the code under test, decided by the behaviour of the real functions on every run
     (an answer that is neither the repaired nor the unrepaired one is a correspondence failure: RuntimeError):
+      P37  see probe_p37 (the real walk_serial / walk_parallel on two small trees)
       P17  `foo.tmp` of b/.xvcignore must not touch /r/a/foo.tmp                  (IgnoreRules::check)
       P35  globals `.xvc\\n.git\\n` + root line `!.git`: /r/a/.git is Ignore, not Whitelist; asked twice, with the
            whitelist line coming from the root and from a/ , and for .xvc                 (IgnoreRules::check)
@@ -406,7 +446,10 @@ def probe_switches(globdrv_bin):
         f36 = True
     else:
         raise RuntimeError("probe_switches: P36 probe inconclusive, globdrv answered %r (rc=%s)" % (out, rc))
-    return Switches(f17, f35, f36)
+    f37, problem = probe_p37(walkdrv_bin, base) if walkdrv_bin else (False, None)
+    sw = Switches(f17, f35, f36, f37)
+    sw.problems = [problem] if problem else []
+    return sw
 
 
 # ---- classification, shrinking, the diff -------------------------------------------------------------
@@ -626,7 +669,8 @@ WALK_TIE = ("globmodel w/t (spec_walk, serial_walk, par_step machine, H2 trace r
             "(xvc_walker::walk_serial / walk_parallel on materialised trees)")
 P17_CLASS = "nested-ignore-pattern-acts-outside-its-directory"
 IGN = ".xvcignore"
-THEOREMS_WALK = "pattern_local / par_walk_deterministic(_outside_P17) / serial_eq_spec / serial_eq_parallel / ignored_dir_hides_subtree / never_enters_xvc_git / par_walk_terminates"
+THEOREMS_WALK = ("pattern_local / par_walk_deterministic(_outside_P17) / serial_eq_spec / serial_eq_parallel / ignored_dir_hides_subtree / "
+                 "dir_pattern_hides_subtree(_fixed) / never_enters_xvc_git / par_walk_terminates")
 
 TRUSTED = [
     "Coq 8.16.1 kernel, coqc; vm_compute in Examples and _refuted witnesses only; no native_compute",
@@ -649,9 +693,11 @@ TRUSTED = [
     "The character tests of Pattern::new / content_to_patterns ('!', '/', '#', '\\', white space) are tests on UTF-8 bytes in the model: the ASCII ones cannot occur inside a multi-byte "
     "sequence, and trim_end / trim know the UTF-8 encodings of the 19 non-ASCII White_Space characters (Glob/Pattern.v ws_len). Byte strings that are not UTF-8 cannot reach these "
     "functions (&str); a file name that is not UTF-8 is outside the domain (to_string_lossy)",
-    "switches fixed_P17 / fixed_P35 / fixed_P36 of the model are derived from the behaviour of the real IgnoreRules::check and Pattern::new on every run (probe_switches: three probes "
-    "for P35, three for P36, one for P17; an answer that is neither the repaired nor the unrepaired behaviour raises and fails the check); the class predicates follow the switches "
-    "(a repaired class explains nothing)",
+    "switches fixed_P17 / fixed_P35 / fixed_P36 / fixed_P37 of the model are derived from the behaviour of the real IgnoreRules::check, Pattern::new, walk_serial and walk_parallel "
+    "on every run (probe_switches: three probes for P35, three for P36, one for P17, two trees walked by both walkers for P37; an answer that is neither the repaired nor the unrepaired "
+    "behaviour -- e.g. one walker repaired and the other not -- raises and fails the check); the class predicates follow the switches (a repaired class explains nothing)",
+    "oracle_dirlines reads the `dir/` lines from the ignore files itself (gitignore grammar: `name/` names every directory of that name below the file's directory, `/a/name/` and `a/name/` "
+    "the directory at that path; literal names only) and decides `not itself whitelisted` liberally with fnmatch (a directory a `!` line could match is not judged); it does not consult the model",
     "environment assumptions: the tree does not change during a walk; file names are non-empty and contain no '/' (wf_tree); SegQueue / RwLock / scoped threads behave as specified",
 ]
 
@@ -776,6 +822,62 @@ _W_UFILES = ["\u00e9", "caf\u00e9", "\u65e5\u672c", "\u00e9.tmp", "\u65e5\u672c.
 _SPECIAL_WHITE = ["!.git", "!.xvc", "!.*", "!*", "!.git/", "!**/.git", "!.xvc/", "!.???", "!.git*"]
 
 
+_GLOB_META = set("*?[]\\{}")
+
+
+def _append_ign(entries, d, lines):
+    """appends rule lines to the ignore file of directory d (created when there is none)"""
+    p = (d + "/" if d else "") + IGN
+    old = next((e for e in entries if e[1] == p and e[0] == "f"), None)
+    txt = "\n".join(lines) + "\n"
+    if old:
+        old[2] = old[2] + ("" if old[2].endswith("\n") or not old[2] else "\n") + txt
+    else:
+        entries.append(["f", p, txt])
+
+
+def add_dirline_motif(rng, entries):
+    """the motif of P37: a directory-only line (`name/`, sometimes the anchored forms `/a/name/`, `a/name/`) that
+    names a directory D of the tree, written in the ignore file of one of D's proper ancestors, together with
+    one or two whitelist lines that match CHILDREN of D by name or by `*.ext` (now and then the directory itself:
+    `!name/`, `!*`), written in an ignore file at or above D or in D's own.  Returns D or None."""
+    dirs = [e[1] for e in entries if e[0] == "d"]
+    kids = {}
+    for e in entries:
+        if e[1].split("/")[-1] != IGN:
+            kids.setdefault(parent_of(e[1]), []).append(e[1])
+    cands = [d for d in dirs if kids.get(d) and not (set(d) & _GLOB_META) and not any(c in (".xvc", ".git") for c in d.split("/"))]
+    if not cands:
+        return None
+    D = rng.choice(cands)
+    comps = D.split("/")
+    F = rng.choice([""] + ["/".join(comps[:i]) for i in range(1, len(comps))])
+    rel = D[len(F) + 1:] if F else D
+    k = rng.random()
+    if k < 0.72:
+        line = comps[-1] + "/"
+    elif k < 0.86:
+        line = "/" + rel + "/"
+    else:
+        line = rel + "/"
+    _append_ign(entries, F, [line])
+    wl = []
+    for _ in range(rng.randint(1, 2)):
+        c = rng.choice(kids[D]).split("/")[-1]
+        r = rng.random()
+        if r < 0.42 and not (set(c) & _GLOB_META):
+            wl.append("!" + c)
+        elif r < 0.80 and "." in c[1:]:
+            wl.append("!*." + c.rsplit(".", 1)[1])
+        elif r < 0.90:
+            wl.append("!" + c[0] + "*")
+        else:
+            wl.append(rng.choice(["!*", "!" + comps[-1] + "/", "!" + comps[-1], "!**/" + c]))
+    W = rng.choice([F, "", parent_of(D), D, F])
+    _append_ign(entries, W, wl)
+    return D
+
+
 def gen_tree(rng, sw=None, max_nodes=30):
     """a tree of at most max_nodes entries with ignore files at every depth, .xvc / .git directories,
     (often) the same file names in sibling directories, in one tree out of three file and directory
@@ -848,6 +950,9 @@ def gen_tree(rng, sw=None, max_nodes=30):
                 old[2] = old[2] + ("" if old[2].endswith("\n") or not old[2] else "\n") + line + "\n"
             else:
                 entries.append(["f", d + "/" + IGN, line + "\n"])
+    # the motif of P37: a `dir/` line and whitelist lines for children of that directory
+    if rng.random() < 0.42:
+        add_dirline_motif(rng, entries)
     return reorder(entries, lambda p: 0)
 
 
@@ -1061,6 +1166,146 @@ def oracle_walk(entries, res):
     return bad
 
 
+def rule_lines_of(content):
+    """the rule lines of an ignore file as str::lines gives them (split at \\n, one trailing \\r dropped), trailing blanks
+    and tabs removed; lines that end in other white space or in `\\ ` are left out (not judged)"""
+    out = []
+    for raw in content.split("\n"):
+        l = raw[:-1] if raw.endswith("\r") else raw
+        if l.endswith("\\ "):
+            continue
+        l = l.rstrip(" \t")
+        if not l or l != l.rstrip() or l.startswith("#"):
+            continue
+        out.append(l)
+    return out
+
+
+def named_directories(entries):
+    """{D: (F, line)}: the directories of the tree that a directory-only line names, read from the ignore files
+    the way the gitignore grammar reads them (independent of the model):
+      `name/`            in F/.xvcignore names every directory strictly below F whose last component is `name`
+      `/a/name/`, `a/name/`  in F/.xvcignore name the directory F/a/name
+    Only literal names (no glob metacharacter, not a negation, not a comment); for the anchored forms F itself must
+    be free of glob metacharacters (xvc prefixes the glob with F unescaped)."""
+    dirs = {e[1] for e in entries if e[0] == "d"}
+    out = {}
+    for k, p, c in entries:
+        if k != "f" or p.split("/")[-1] != IGN or not c:
+            continue
+        F = parent_of(p)
+        for l in rule_lines_of(c):
+            if not l.endswith("/") or l[0] == "!":
+                continue
+            body = l[:-1]
+            if not body or body.endswith("/") or (set(body) & _GLOB_META) or "//" in body:
+                continue
+            if "/" not in body:
+                for D in dirs:
+                    if under(D, F) and D != F and D.split("/")[-1] == body:
+                        out.setdefault(D, (F, l))
+            else:
+                rel = body[1:] if body.startswith("/") else body
+                if not rel or rel.startswith("/") or (set(F) & _GLOB_META):
+                    continue
+                D = (F + "/" if F else "") + rel
+                if D in dirs:
+                    out.setdefault(D, (F, l))
+    return out
+
+
+def maybe_whitelisted(entries, D):
+    """could some whitelist (`!`) line of some ignore file of the tree match the directory D itself?  Liberal on
+    purpose (fnmatch, whose `*` also crosses `/`, against every contiguous run of components of the path: the name,
+    the path, its suffixes AND the names / paths of its ancestors, because xvc reads a directory-only whitelist line
+    `!X/` as "everything below a directory X", which its own unit tests pin; a line with a class or an escape always
+    counts): a directory this says yes to is not judged by oracle_dirlines."""
+    import fnmatch
+    comps = D.split("/")
+    cands = {"/".join(comps[i:j]) for i in range(len(comps)) for j in range(i + 1, len(comps) + 1)}
+    for k, p, c in entries:
+        if k != "f" or p.split("/")[-1] != IGN or not c:
+            continue
+        for raw in c.replace("\r", "").split("\n"):
+            l = raw.strip()
+            if not l.startswith("!"):
+                continue
+            b = l.lstrip("!").strip().strip("/")
+            if not b:
+                continue
+            if "[" in b or "\\" in b or ("?" in b and any(ord(ch) > 127 for ch in D)):
+                return True          # (`?` is one BYTE for xvc, one character for fnmatch)
+            for v in {b, b.replace("**/", ""), b.replace("**", "*"), b.replace("/**", ""), b.replace("**/", "").replace("/**", "")}:
+                if v and any(fnmatch.fnmatchcase(x, v) for x in cands):
+                    return True
+    return False
+
+
+def oracle_dirlines(entries, sets):
+    """"an ignored directory hides everything beneath it", for the `dir/` grammar class, from the property text:
+    a path strictly below a directory that an applicable directory-only line names, and that no whitelist line
+    could match itself, is not reported -- whatever whitelist lines say about the descendants.
+    Returns [(D, F, line, [offending paths])]."""
+    named = named_directories(entries)
+    if not named:
+        return []
+    allp = set().union(*[set(x) for x in sets]) if sets else set()
+    out = []
+    for D, (F, l) in sorted(named.items()):
+        below = sorted(q for q in allp if under(q, D) and q != D)
+        if below and not maybe_whitelisted(entries, D):
+            out.append((D, F, l, below))
+    return out
+
+
+P37_CLASS = "dir-pattern-child-whitelisted"
+
+
+def p37_explains(model_bin, entries, offending, sw):
+    """the class predicate of P37: every reported path q below a named directory D got there because the child of D
+    on the way to q is matched by the glob of a whitelist (`!`) line (of an ignore file above it when the locality
+    fix is in the tree, or of D's own) while D itself is matched by none -- decided with the extracted matcher.
+    Follows the switch: with the repair of P37 in the tree the class is empty (Props/C09.v dir_class_empty_when_fixed)
+    and nothing is explained."""
+    if sw.f37:
+        return False, {}
+    rules = [(parent_of(p), c) for k, p, c in entries if k == "f" and p.split("/")[-1] == IGN and c]
+    rc, out = C.run_lines(model_bin, ["c %s %s 1" % (_hx(d), _hx(c)) for d, c in rules])
+    wl = []
+    for (d, c), ans in zip(rules, out):
+        if ans in ("-", "PANIC") or ans.startswith("ERROR"):
+            continue
+        wl += [(d, _unhx(it.split(":")[1])) for it in ans.split(",") if it.startswith("w:")]
+    why, ok = {}, bool(offending)
+    for D, F, l, below in offending:
+        for q in below:
+            child = D + "/" + q[len(D) + 1:].split("/")[0]
+            cands = [(d, g) for d, g in wl if under(child, d) or not sw.f17]
+            qs = ["m %s %s" % (_hx(g), _hx("/" + child)) for d, g in cands] + ["m %s %s" % (_hx(g), _hx("/" + D)) for d, g in cands]
+            o2 = C.run_lines(model_bin, qs)[1] if qs else []
+            hit = next(((d, g) for (d, g), a in zip(cands, o2[:len(cands)]) if a == "1"), None)
+            dhit = next(((d, g) for (d, g), a in zip(cands, o2[len(cands):]) if a == "1" and under(D, d)), None)
+            if hit is None or dhit is not None:
+                ok = False
+            else:
+                why[q] = "%s/.xvcignore: `%s` names %s; %s/.xvcignore: whitelist glob %s matches /%s" % (F, l, D, hit[0], hit[1], child)
+    return ok, why
+
+
+def _has_p37_shape(entries):
+    """statistics only: a named, not whitelisted directory with a child whose name some `!` line matches (fnmatch)"""
+    import fnmatch
+    named = [D for D in named_directories(entries) if not maybe_whitelisted(entries, D)]
+    if not named:
+        return False
+    wl = [l.strip().lstrip("!").strip("/") for k, p, c in entries if k == "f" and p.split("/")[-1] == IGN for l in c.split("\n") if l.strip().startswith("!")]
+    wl = [w.split("/")[-1] for w in wl if w]
+    for k, p, c in entries:
+        if parent_of(p) in named and p.split("/")[-1] != IGN and any(fnmatch.fnmatchcase(p.split("/")[-1], w) for w in wl):
+            return True
+    return False
+
+
 def locality_variants(entries, limit=2):
     """(directory, tree with that directory's ignore file emptied) for nested ignore files"""
     out = []
@@ -1185,6 +1430,16 @@ def walk_batch(chk, bins, base, trees, globals_txt, sw, reps, jitter_seed, want_
                 ok, why = p17_explains(model_bin, t, ref, observed_sets)
                 fails.append({"kind": "oracle", "what": so[0][1], "tree": t, "detail": {"all": [o[1] for o in so], "first": so[0][2], "foreign_patterns": why},
                               "klass": P17_CLASS if ok else None, "cat": "sets"})
+            # "an ignored directory hides everything beneath it" for the `dir/` lines, read from the ignore files themselves
+            dl = oracle_dirlines(t, observed_sets)
+            if named_directories(t):
+                stats["trees_with_dir_lines"] = stats.get("trees_with_dir_lines", 0) + 1
+            if dl:
+                ok, why = p37_explains(model_bin, t, dl, sw)
+                D, F, l, below = dl[0]
+                fails.append({"kind": "oracle", "what": "a path below a directory named by a directory-only line was reported: `%s` in %s names %s/, yet %s is reported" % (
+                                  l, (F + "/" if F else "") + IGN, D, below[0]),
+                              "tree": t, "detail": {"named": [list(x) for x in dl], "explained_by": why}, "klass": P37_CLASS if ok else None, "cat": "dirline"})
             for cat, what, det in obs:
                 if cat == "special":
                     ok, why = whitelist_explains(model_bin, t, det["paths"], sw)
@@ -1368,6 +1623,11 @@ def cli_case(xvc_bin, model_bin, entries, globals_txt, sw, repeats=3, track_dir=
                 fails.append(("xvc file list printed a path inside .xvc / .git: %s" % special[0], {"special": special}, lists))
             if any(l != lists[0] for l in lists):
                 fails.append(("xvc file list printed different path sets on repeated runs", {"runs": lists}, lists))
+            dl = oracle_dirlines(tree, [lists[0]])
+            if dl:
+                D, F, l, below = dl[0]
+                fails.append(("xvc file list printed a path below a directory named by a directory-only line: `%s` in %s names %s/, yet %s is listed" % (
+                                  l, (F + "/" if F else "") + IGN, D, below[0]), {"dirline": [list(x) for x in dl]}, lists))
             exp = sorted(ref)
             if sorted(set(lists[0])) != exp:
                 fails.append(("xvc file list differs from the walk in which every pattern acts only below the directory of its ignore file",
@@ -1454,6 +1714,9 @@ def gen_cli_tree(rng, sw):
             if sw.f35 and rng.random() < 0.35:
                 lines.append(rng.choice(_SPECIAL_WHITE))
             entries.append(["f", (d + "/" if d else "") + IGN, "\n".join(lines) + "\n"])
+    # the motif of P37: a `dir/` line and whitelist lines for children of that directory (one repository in two)
+    if rng.random() < 0.5:
+        add_dirline_motif(rng, entries)
     return reorder(entries, lambda p: 0)
 
 
@@ -1511,6 +1774,9 @@ def report_cli(chk, model_bin, fails, globals_txt, sw, seen=None):
         if "special" in det:
             ok, why = whitelist_explains(model_bin, tree, det["special"], sw)
             klass = WHITE_CLASS if ok else None
+        elif "dirline" in det:
+            ok, why = p37_explains(model_bin, tree, [tuple(x) for x in det["dirline"]], sw)
+            klass = P37_CLASS if ok else None
         else:
             ok, why = p17_explains(model_bin, tree, ref, observed) if observed else (False, {})
             klass = P17_CLASS if ok else None
@@ -1558,12 +1824,19 @@ def run(chk, replay=None):
     hb = C.ensure_harness(["globdrv", "walkdrv"])
     xvc_bin = C.ensure_xvc()
     bins = {"model": model_bin, "walkdrv": hb["walkdrv"], "globdrv": hb["globdrv"]}
-    sw = probe_switches(hb["globdrv"])
+    pbase = C.scratch_dir("c09probe")
+    try:
+        sw = probe_switches(hb["globdrv"], hb["walkdrv"], pbase)
+    finally:
+        C.rm_rf(pbase)
+    for pr in getattr(sw, "problems", []):
+        chk.fail("correspondence", pr, {"theorem_or_correspondence": "probe of the repair switch fixed_P37 on the real walk_serial / walk_parallel (Props/C09.v dir_pattern_hides_subtree_fixed)"},
+                 name="probe", has_input=False)
     fixed = sw.f17
     chk.cov["fixed_P17_in_tree"] = fixed
     chk.cov["switches_in_tree"] = sw.as_dict()
     C.log("switches derived from the code: %s" % sw.as_dict())
-    class_switch = {P17_CLASS: sw.f17, WHITE_CLASS: sw.f35, P36_CLASS: sw.f36}
+    class_switch = {P17_CLASS: sw.f17, WHITE_CLASS: sw.f35, P36_CLASS: sw.f36, P37_CLASS: sw.f37}
     chk.cov["claimed_for_this_tree"] = [
         "pattern_local, par_walk_deterministic, serial_eq_spec, serial_eq_parallel (fixed_P17 = true)" if sw.f17 else
         "par_walk_deterministic_outside_P17, serial_eq_spec_outside_P17 (fixed_P17 = false: outside the class known_P17)",
@@ -1571,6 +1844,9 @@ def run(chk, replay=None):
         "never_enters_xvc_git, par_never_enters_xvc_git outside the class whitelists_special (fixed_P35 = false; never_enters_xvc_git_refuted is the witness inside it)",
         "walk_never_panics_fixed: no walk dies in Pattern::new (fixed_P36 = true; P36_class_empty_when_fixed)" if sw.f36 else
         "walk_no_panic_outside_P36 (fixed_P36 = false; walk_panics_refuted is the witness inside the class known_P36)",
+        "dir_pattern_hides_subtree_fixed / dir_pattern_hides_subtree / serial_ / par_dir_pattern_hides_subtree: a `name/` line hides the directory it names and everything "
+        "beneath it whatever whitelist lines say about the descendants, every tree, every schedule, no class excluded (fixed_P37 = true; dir_class_empty_when_fixed)" if sw.f37 else
+        "dir_pattern_hides_subtree_outside_P37: outside the class dir_leak (fixed_P37 = false; dir_pattern_hides_subtree_refuted is the witness inside it: `build/` + `!*.keep`)",
         "ignored_dir_hides_subtree, par_walk_terminates / progress / steps_bounded / stuck_is_final: for every setting of the switches"]
     base = C.scratch_dir("c09")
     dist = {}
@@ -1662,6 +1938,8 @@ def run(chk, replay=None):
         st["trees_with_multibyte_names"] = sum(1 for t in trees if any(ord(max(e[1])) > 127 for e in t))
         st["trees_with_multibyte_ignore_lines"] = sum(1 for t in trees if any(e[2] and ord(max(e[2])) > 127 for e in t if e[1].split("/")[-1] == IGN))
         st["trees_with_whitelist_on_special"] = sum(1 for t in trees if any(l.strip() in _SPECIAL_WHITE for e in t if e[1].split("/")[-1] == IGN for l in e[2].split("\n")))
+        st["trees_with_dir_line_naming_a_directory"] = sum(1 for t in trees if named_directories(t))
+        st["trees_with_named_directory_and_whitelisted_child"] = sum(1 for t in trees if _has_p37_shape(t))
         st["h2_present"] = st["traces"] > 0
         dist["walk"] = st
         chk.cov["traces_validated_against_impl"] = st["traces"]
